@@ -16,6 +16,16 @@ CHECKS = {
    note="Trusted: jxlw (writer + reference inverse transforms, written from the format definition; agreed with the decoder on bring-up). Excluded as oracle-uncertain: dim_shift>0, implicit palette entries at depth>24, ec_upsampling>1. Images up to 300x70 / 257x129.",
    technique="deviation-bounded exhaustive enumeration of encoder configurations vs independent reference encoder",
    design_ref="4/C03", engine="mc"),
+ "C04": dict(category="exploration",
+   text="Small-scope exhaustive families driven straight into jxl_coding::Decoder: every Kraft-complete prefix length vector (alphabet <= 5/6) x hskip x RLE x all short sequences, every simple-form header, deep/flat codes up to 2^15 symbols, ANS single/binary/flat for every alphabet size and table size, general histograms on a grid x 14 shifts x layouts x RLE segmentations, every legal hybrid-integer config, every hole-free cluster map (<= 5/6 contexts) in simple/coded/MTF form, LZ77 parameter forms x 123 distance symbols x multipliers incl. the 2^20 window boundary, all permutations of size <= 5. Oracle: decoded values, ANS final state, exact bit position.",
+   note="Trusted: jxlw::entropy (independent encoder with its own alias-table and header writers). Long sequences are one distribution-driven sequence per code, seeded by VERIF_SEED. A copy as the very first LZ77 symbol is excluded (oracle-uncertain).",
+   technique="small-scope exhaustive enumeration of codes/configs/sequences vs independent reference encoder",
+   design_ref="4/C04", engine="mc"),
+ "C14": dict(category="exploration",
+   text="Image header (28 field dimensions) within 3 (quick) / 4 (thorough) deviations of the default and frame header + TOC (38 dimensions, 6 image contexts) within 2 / 3 deviations, every field over its boundary alphabet incl. forced widest U32/U64 selectors, F16 extremes, 1071-byte names, extension payloads up to 4096 bits, TOC permutations; written by jxlw, parsed through the public Bundle::parse of ImageHeader / FrameHeader / Frame, every reported field and the parser's final bit position compared.",
+   note="Trusted: jxlw::headers. Oracle-uncertain combinations excluded (XYB enum colour space, Mul clamp without extra channels, EC blend source with mixed Replace).",
+   technique="deviation-bounded exhaustive enumeration of header field assignments vs independent reference writer",
+   design_ref="4/C14", engine="mc"),
 }
 NOT_YET = "check not built yet in this round (work in progress; see DESIGN.md section 10)"
 NA = {}
